@@ -200,6 +200,11 @@ func buildDelegation(c cast, s DlgSpec) (*delegation.Token, error) {
 	if err != nil {
 		return nil, fmt.Errorf("policy: %w", err)
 	}
+	if s.PolSpare {
+		// a policy slice with spare capacity, as a caller gets from a pre-sized slice or
+		// from the attenuation idiom append(base, more...)
+		pol = append(make(policy.Policy, 0, len(pol)+4), pol...)
+	}
 	var opts []delegation.Option
 	if s.Exp != nil {
 		t := simTime(*s.Exp, s.SubMilli)
